@@ -286,7 +286,7 @@ impl<'gc, 'r> Env<'gc, 'r> {
     // -----------------------------------------------------------------------------------------
 
     pub fn alloc(&mut self, ex: &mut Exec, kind: Kind, edges: [Sel; 3], wedge: Sel, len: u8) -> Option<(u32, Ref<'gc>)> {
-        if ex.model.objs.iter().filter(|o| o.status != Status::Released).count() >= 64 {
+        if ex.live_objects() >= ex.opts.max_live.max(64) {
             ex.cov.ops_skipped += 1;
             return None;
         }
@@ -401,6 +401,13 @@ impl<'gc, 'r> Env<'gc, 'r> {
                 let g = GcStr::new_str(mc, &s);
                 blocks = obs::capture_off();
                 r = if kind == Kind::Str { Ref::Str(g) } else { Ref::TStr(Gc::as_thin(g)) };
+            }
+            Kind::P => {
+                let v = PNode { tok: Tok::new(arena, id), w: Lock::new(rw[0]), probe: Probe { arena, id }, s: [Lock::new(rs[0]), Lock::new(rs[1])], pattern: pattern_for(id) };
+                obs::capture_on();
+                let g = Gc::new(mc, v);
+                blocks = obs::capture_off();
+                r = Ref::P(g);
             }
             Kind::Arr => {
                 let v: [Slot<'gc>; 3] = [rs[0], rs[1], rs[2]];
@@ -538,6 +545,11 @@ impl<'gc, 'r> Env<'gc, 'r> {
                         path = 10 + v; // 10..=15
                     }
                 }
+            }
+            Ref::P(g) => {
+                let w: &'gc gc_arena::barrier::Write<PNode<'gc>> = Gc::write(mc, g);
+                gc_arena::barrier::field!(w, PNode, s)[s].unlock().set(cref);
+                path = 22;
             }
             Ref::LB(g) => {
                 if alt {
@@ -692,6 +704,11 @@ impl<'gc, 'r> Env<'gc, 'r> {
             Ref::RB(g) => {
                 g.borrow_mut(mc).w = w;
                 path = 37;
+            }
+            Ref::P(g) => {
+                let wr: &'gc gc_arena::barrier::Write<PNode<'gc>> = Gc::write(mc, g);
+                gc_arena::barrier::field!(wr, PNode, w).unlock().set(w);
+                path = 38;
             }
             _ => {
                 ex.cov.ops_skipped += 1;
@@ -1073,6 +1090,43 @@ impl<'gc, 'r> Env<'gc, 'r> {
         }
     }
 
+    /// Grow a rooted chain: new node -> previous content of the root slot; root slot := new node.
+    pub fn push(&mut self, ex: &mut Exec, slot: u8, dual: bool, kind: Kind) {
+        if !self.root.writable() {
+            ex.cov.ops_skipped += 1;
+            return;
+        }
+        let s = slot as usize % ROOT_STRONG;
+        let prev_id = ex.model.arenas[self.arena as usize].root_s[s];
+        let prev: Option<(u32, Ref<'gc>)> = prev_id.and_then(|id| self.operands.iter().find(|(i, _)| *i == id).copied());
+        // operand selectors that name exactly `prev` / the fresh leaf
+        let sel_of = |env: &Self, id: u32| -> Sel {
+            let n = env.operands.len();
+            let ix = env.operands.iter().position(|(i, _)| *i == id).unwrap_or(0);
+            // smallest byte b with (b * n) >> 8 == ix
+            let b = (((ix << 8) + n - 1) / n.max(1)).min(255) as Sel;
+            if b == 0 { 1 } else { b }
+        };
+        let node = if dual {
+            let Some(leaf) = self.alloc(ex, Kind::L, [0, 0, 0], 0, 0) else { return };
+            let lsel = sel_of(self, leaf.0);
+            let psel = prev.map(|p| sel_of(self, p.0)).unwrap_or(0);
+            // pair node: weak -> leaf (traced first), s[0] -> leaf, s[1] -> previous head
+            let e = [lsel, if prev.is_some() { psel } else { 0 }, 0];
+            self.alloc(ex, Kind::P, e, lsel, 0)
+        } else {
+            let k = if matches!(kind, Kind::D | Kind::R | Kind::RB | Kind::LB | Kind::OB | Kind::P) { kind } else { Kind::D };
+            let psel = prev.map(|p| sel_of(self, p.0)).unwrap_or(0);
+            self.alloc(ex, k, [if prev.is_some() { psel } else { 0 }, 0, 0], 0, 0)
+        };
+        let Some(node) = node else { return };
+        if let RootMode::Rw(a, _) = &mut self.root {
+            a.s[s] = Some(node.1);
+        }
+        obs::untracked(|| ex.model.arenas[self.arena as usize].root_s[s] = Some(node.0));
+        self.note_adoption(ex, 40, None, Some(node.0));
+    }
+
     pub fn temps(&mut self, ex: &mut Exec, n: u8) {
         for j in 0..(n % 5) {
             let kind = [Kind::LS, Kind::D, Kind::L, Kind::Str, Kind::R][j as usize % 5];
@@ -1190,6 +1244,7 @@ impl<'gc, 'r> Env<'gc, 'r> {
                 obs::untracked(|| ex.model.arenas[self.arena as usize].preset = *preset);
             }
             MutOp::PokeLeaf { target } => self.poke_leaf(ex, *target),
+            MutOp::Push { slot, dual, kind } => self.push(ex, *slot, *dual, *kind),
             MutOp::Convert { target, chain, store } => crate::convert::convert(self, ex, *target, *chain, *store),
         }
     }
